@@ -497,3 +497,5 @@ META = {
     'technique': 'set inclusion over extracted reject/separator sets + writer/reader encoding-class table with call-site '
                  'specialisation + CFG must-pass-through (validate-before-yield, wipe-before-write)',
 }
+
+META['explanation'] += ' ' + "Further: loader completeness (the only skipped lines are the loader's error recovery)."
